@@ -140,10 +140,15 @@ structure CC where
   reader : Sched
   cell : Option IoKind := none
   pulled : Nat := 0
+  /-- `at_line_start`: true until the first character of the current line has been yielded -/
+  atLineStart : Bool := true
+  /-- `in_directive_line`: the current line began with `%` at column 0 -/
+  inDirectiveLine : Bool := false
 deriving Repr, DecidableEq
 
-/-- `ChunkedChars::next` -/
-def next (cc : CC) : Option Char × CC :=
+/-- `ChunkedChars::next_char` (the body of `next` before fix bfd6267): one code point from the reader, or
+`None` on end of input, I/O error, malformed sequence or size cap.  Does not touch the line flags. -/
+def nextChar (cc : CC) : Option Char × CC :=
   match readFirst cc.reader with
   | (.eof, r) => (none, { cc with reader := r })                          -- true EOF
   | (.err k, r) => (none, { cc with reader := r, cell := some k })
@@ -172,6 +177,23 @@ def next (cc : CC) : Option Char × CC :=
           | some c => (some c, cc)
           | none => (none, { cc with cell := some kInvalidData })
 
+/-- the bookkeeping `next` does for a yielded character: the first character of a line that is not a
+U+FEFF decides whether the line is a directive line; `\n` / `\r` start a new line -/
+def noteChar (cc : CC) (c : Char) : CC :=
+  let cc := if cc.atLineStart && c != Char.ofNat 0xFEFF then
+      { cc with inDirectiveLine := c == '%', atLineStart := false } else cc
+  if c == '\n' || c == '\r' then { cc with atLineStart := true, inDirectiveLine := false } else cc
+
+/-- `ChunkedChars::next` (fix bfd6267): when `next_char` reports the end (EOF, I/O error, size cap) inside a
+line that began with `%`, ONE synthetic line break is yielded before `None` — the scanner would otherwise
+never return on the NUL padding of `BufferedInput` inside a directive. -/
+def next (cc : CC) : Option Char × CC :=
+  match nextChar cc with
+  | (some c, cc) => (some c, noteChar cc c)
+  | (none, cc) =>
+    if cc.inDirectiveLine then (some '\n', { cc with inDirectiveLine := false })
+    else (none, cc)
+
 /-- number of bytes a schedule still holds -/
 def Sched.bytes (s : Sched) : Nat := (flat s).length
 
@@ -185,9 +207,9 @@ def collect : Nat → CC → List Char × CC
       let (cs, cc'') := collect fuel cc'
       (c :: cs, cc'')
 
-/-- every produced character consumes at least one byte, so `bytes + 1` calls reach the first `None`
-(lemma `collect_fuel` in Lemmas/C09.lean) -/
-def collectAll (cc : CC) : List Char × CC := collect (Sched.bytes cc.reader + 1) cc
+/-- every real character consumes at least one byte and every synthetic break needs a `%` consumed since
+the previous one, so `2 * bytes + 2` calls reach the first `None` -/
+def collectAll (cc : CC) : List Char × CC := collect (2 * Sched.bytes cc.reader + 2) cc
 
 /-- the hook's driving loop (`verif_hooks::reader::chunked_chars_run`): call `next` until `maxNone`
 calls returned `None` or `maxCalls` calls were made; the cell is taken after every call -/
@@ -378,12 +400,12 @@ def stripBom : List Char → List Char
   | c :: cs => if c == BOM then cs else c :: cs
   | [] => []
 
-/-- text the scanner sees on the `from_str` / `from_slice` path: `from_str_with_options_impl` strips
-one BOM and `LiveEvents::from_str` strips again -/
-def strPathText (t : List Char) : List Char := stripBom (stripBom t)
+/-- text the scanner sees on the `from_str` / `from_slice` path: `LiveEvents::from_str` strips one BOM; the
+entry points themselves no longer strip another one (fix aed36af) -/
+def strPathText (t : List Char) : List Char := stripBom t
 
-/-- `with_deserializer_from_str_with_options`: `normalize_str_input`, then `LiveEvents::from_str` -/
-def closureStrPathText (t : List Char) : List Char := stripBom (stripBom t)
+/-- `with_deserializer_from_str_with_options`: `LiveEvents::from_str` only (fix aed36af) -/
+def closureStrPathText (t : List Char) : List Char := stripBom t
 
 /-- text the scanner sees on the reader path: the external `DecodeReaderBytes` removes one BOM
 (contract, exercised at run time); `ChunkedChars` removes nothing -/
